@@ -966,6 +966,9 @@ structure NodeConfig where
   bootstrap : List Addr
   publicIp : Option UInt32
   caps : Nat × Nat × Nat × Nat := (0, 0, 0, 0)
+  /-- the socket's transaction id counter starts here (0 in production; the harness moves it to
+      exercise the wrap-around) -/
+  firstTid : Nat := 0
 
 /-- `Actor::new` followed by the first maintenance; `seed` is the thread's random stream -/
 def Actor.create (cfg : NodeConfig) (seed : UInt64) (now : Nat) : Actor :=
@@ -975,7 +978,7 @@ def Actor.create (cfg : NodeConfig) (seed : UInt64) (now : Nat) : Actor :=
   let server := Server.new cfg.caps.1 cfg.caps.2.1 cfg.caps.2.2.1 cfg.caps.2.2.2 rng now
   let core : Core := { bootstrap := cfg.bootstrap, rt := { id }, srt := { id }, lastRefresh := now,
                        lastPing := now, server, serverMode := cfg.serverMode }
-  let a : Actor := { sockServerMode := cfg.serverMode, core }
+  let a : Actor := { sockServerMode := cfg.serverMode, core, sock := { nextTid := cfg.firstTid % two32 } }
   let a := a.maintenance now
   { a with sock := a.sock.cleanup now }
 
